@@ -5,6 +5,7 @@
   its header, question section and rcode.  That each listener writes this response exactly once, and
   the 6 s deadline, are observed by the listener-level correspondence runs (partial).
 -/
+import MosVerif.Props.C03Pins
 import MosVerif.Lemmas.RouterBasic
 import MosVerif.Lemmas.RouterSpecMain
 import MosVerif.Model.RouterIO
